@@ -554,7 +554,10 @@ fn c26_two_steps(rates: [u32; 3], window: u32) {
     kani::cover!(o1 == Outcome::Dropped && o2 == Outcome::Sent, "step 2: sent after refill");
     kani::cover!(o2 == Outcome::Slipped && slip > 1, "step 2: slipped with slip > 1");
     kani::cover!(o2 == Outcome::Dropped && slip > 1, "step 2: dropped with slip > 1");
-    kani::cover!(s1 >= 1 && reference.count > 1 && reference.count < before2, "step 2: partial refill");
+    kani::cover!(
+        s1 >= 1 && if window >= 2 { reference.count > 1 && reference.count < before2 } else { before2 == limit && reference.count == 1 },
+        "step 2: partial refill (window >= 2; with window 1 every refill is complete: full bucket emptied)"
+    );
     kani::cover!(rcode2 != rcode, "step 2: another RCODE of the same category");
 
     core::mem::forget(ctx1);
@@ -590,7 +593,7 @@ fn any_in(lo: u32, hi: u32) -> u32 {
     x
 }
 
-// @harness props=C26 tier=quick mem=6 t=1500 fn="Rrl::process_response,Rrl::rate_and_limit_for_category,RrlParams::new,RrlParams::set_slip,server::rrl::subject_to_rrl,<Category as From<ExtendedRcode>>::from,Writer::set_tc"
+// @harness props=C26 tier=quick mem=5 t=2400 fn="Rrl::process_response,Rrl::rate_and_limit_for_category,RrlParams::new,RrlParams::set_slip,server::rrl::subject_to_rrl,<Category as From<ExtendedRcode>>::from,Writer::set_tc"
 //   bound="two consecutive UDP QUERY responses of one stream (127.0.0.1, QNAME a.); the three rates 1..=4 each, window 1..=1024, any slip (usize; the random choice for slip>1 is a symbolic bool), any RCODE 0..=15, second response any RCODE of the same category; bucket: any key (same stream or not), any count <= rate*window when it is the stream's, last refill 0..=2^35 s + any nanos before the first response; second response 0..=2^35 s + any nanos later; clock start 0..=2^36 s; table size 1; unwind 4"
 //   kani="--no-assertion-reach-checks" stubs="S2,S4" sym="rates:[u32;3], window, slip:usize, rcode, rcode2, bucket key/count, (s0,n0), (s1,n1), clock"
 #[kani::proof]
@@ -601,7 +604,7 @@ fn c26_bucket_two_steps_r4() {
     c26_two_steps([any_in(1, 4), any_in(1, 4), any_in(1, 4)], any_in(1, 1024));
 }
 
-// @harness props=C26 tier=thorough mem=8 t=3000 fn="Rrl::process_response,Rrl::rate_and_limit_for_category,RrlParams::new"
+// @harness props=C26 tier=thorough mem=6 t=3400 fn="Rrl::process_response,Rrl::rate_and_limit_for_category,RrlParams::new"
 //   bound="as c26_bucket_two_steps_r4 with the three rates 1..=16 each, window 1..=1024"
 //   kani="--no-assertion-reach-checks" stubs="S2,S4" sym="rates:[u32;3], window, slip:usize, rcode, rcode2, bucket key/count, (s0,n0), (s1,n1), clock"
 #[kani::proof]
@@ -612,24 +615,53 @@ fn c26_bucket_two_steps_r16() {
     c26_two_steps([any_in(1, 16), any_in(1, 16), any_in(1, 16)], any_in(1, 1024));
 }
 
-// @harness props=C26 tier=quick mem=6 t=1500 fn="Rrl::process_response,Rrl::rate_and_limit_for_category,RrlParams::new"
-//   bound="as c26_bucket_two_steps_r4 but with (rates, window) chosen symbolically among 6 concrete extreme configurations whose limit reaches up to u32::MAX: (1,1,1;1) (1,1,1;u32::MAX) (u32::MAX,65535,1000;1) (65535,65537,3;65535) (1000,1024,1;4194303) (65537,1,65535;65535)"
-//   kani="--no-assertion-reach-checks" stubs="S2,S4" sym="configuration index, slip:usize, rcode, rcode2, bucket key/count, (s0,n0), (s1,n1), clock"
+// Extreme configurations, one concrete (rates, window) per harness: limits up
+// to u32::MAX, where `count + 1`, `rate * window` and the refill product are
+// closest to the 32-bit boundary.  (A symbolic choice among such
+// configurations in ONE harness cost 1750 CPU s, one SAT call 1656 s.)
+
+// @harness props=C26 tier=quick mem=5 t=2400 fn="Rrl::process_response,Rrl::rate_and_limit_for_category,RrlParams::new"
+//   bound="as c26_bucket_two_steps_r4 with the concrete configuration rates (u32::MAX, 65535, 1000), window 1 (NOERROR capacity u32::MAX)"
+//   kani="--no-assertion-reach-checks" stubs="S2,S4" sym="slip:usize, rcode, rcode2, edns, bucket key/count, (s0,n0), (s1,n1), clock"
 #[kani::proof]
 #[kani::unwind(4)]
 #[kani::stub(std::time::Instant::now, clock_now)]
 #[kani::stub(Rrl::should_slip, should_slip_model)]
-fn c26_bucket_two_steps_extremes() {
-    let which: u8 = kani::any();
-    let (rates, window) = match which {
-        0 => ([1, 1, 1], 1),
-        1 => ([1, 1, 1], u32::MAX),
-        2 => ([u32::MAX, 65535, 1000], 1),
-        3 => ([65535, 65537, 3], 65535),
-        4 => ([1000, 1024, 1], 4_194_303),
-        _ => ([65537, 1, 65535], 65535),
-    };
-    c26_two_steps(rates, window);
+fn c26_bucket_two_steps_max_rate() {
+    c26_two_steps([u32::MAX, 65535, 1000], 1);
+}
+
+// @harness props=C26 tier=quick mem=5 t=2400 fn="Rrl::process_response,Rrl::rate_and_limit_for_category,RrlParams::new"
+//   bound="as c26_bucket_two_steps_r4 with the concrete configuration rates (1, 1, 1), window u32::MAX (capacity u32::MAX refilled by 1 per second: partial refills up to 2^35 s)"
+//   kani="--no-assertion-reach-checks" stubs="S2,S4" sym="slip:usize, rcode, rcode2, edns, bucket key/count, (s0,n0), (s1,n1), clock"
+#[kani::proof]
+#[kani::unwind(4)]
+#[kani::stub(std::time::Instant::now, clock_now)]
+#[kani::stub(Rrl::should_slip, should_slip_model)]
+fn c26_bucket_two_steps_max_window() {
+    c26_two_steps([1, 1, 1], u32::MAX);
+}
+
+// @harness props=C26 tier=thorough mem=5 t=2400 fn="Rrl::process_response,Rrl::rate_and_limit_for_category,RrlParams::new"
+//   bound="as c26_bucket_two_steps_r4 with the concrete configuration rates (65535, 65537, 3), window 65535 (NXDOMAIN capacity 65537*65535 = u32::MAX)"
+//   kani="--no-assertion-reach-checks" stubs="S2,S4" sym="slip:usize, rcode, rcode2, edns, bucket key/count, (s0,n0), (s1,n1), clock"
+#[kani::proof]
+#[kani::unwind(4)]
+#[kani::stub(std::time::Instant::now, clock_now)]
+#[kani::stub(Rrl::should_slip, should_slip_model)]
+fn c26_bucket_two_steps_65537x65535() {
+    c26_two_steps([65535, 65537, 3], 65535);
+}
+
+// @harness props=C26 tier=thorough mem=5 t=2400 fn="Rrl::process_response,Rrl::rate_and_limit_for_category,RrlParams::new"
+//   bound="as c26_bucket_two_steps_r4 with the concrete configuration rates (1000, 1024, 1), window 4194303"
+//   kani="--no-assertion-reach-checks" stubs="S2,S4" sym="slip:usize, rcode, rcode2, edns, bucket key/count, (s0,n0), (s1,n1), clock"
+#[kani::proof]
+#[kani::unwind(4)]
+#[kani::stub(std::time::Instant::now, clock_now)]
+#[kani::stub(Rrl::should_slip, should_slip_model)]
+fn c26_bucket_two_steps_1000x4194303() {
+    c26_two_steps([1000, 1024, 1], 4_194_303);
 }
 
 // --------------------------------------------------------------------------
@@ -688,7 +720,7 @@ fn c26_limited_response_shape(edns: bool, tsig: bool) {
     core::mem::forget(rrl);
 }
 
-// @harness props=C26 tier=quick mem=4 t=900 fn="Rrl::process_response,Writer::clear_rrs,Writer::set_tc,server::rrl::subject_to_rrl"
+// @harness props=C26 tier=quick mem=4 t=1800 fn="Rrl::process_response,Writer::clear_rrs,Writer::set_tc,server::rrl::subject_to_rrl"
 //   bound="one UDP QUERY response (a. IN A) with the question echoed and one A RR in each of answer/authority/additional, no OPT, no TSIG, any RCODE 0..=15, arriving at a full bucket (rate 1, window 1, count 1) 0 s + any nanos after its refill; any slip (usize); 128-octet response buffer; unwind 3"
 //   kani="--no-assertion-reach-checks" stubs="S2,S4" sym="slip:usize, rcode, nanos, clock"
 #[kani::proof]
@@ -699,7 +731,7 @@ fn c26_limited_shape_plain() {
     c26_limited_response_shape(false, false);
 }
 
-// @harness props=C26 tier=quick mem=4 t=900 fn="Rrl::process_response,Writer::clear_rrs,Writer::set_tc"
+// @harness props=C26 tier=quick mem=4 t=1800 fn="Rrl::process_response,Writer::clear_rrs,Writer::set_tc"
 //   bound="as c26_limited_shape_plain with an OPT and a TSIG pseudo-RR reserved in the response"
 //   kani="--no-assertion-reach-checks" stubs="S2,S4" sym="slip:usize, rcode, nanos, clock"
 #[kani::proof]
@@ -710,7 +742,7 @@ fn c26_limited_shape_opt_tsig() {
     c26_limited_response_shape(true, true);
 }
 
-// @harness props=C26 tier=thorough mem=4 t=900 fn="Rrl::process_response,Writer::clear_rrs,Writer::set_tc"
+// @harness props=C26 tier=thorough mem=4 t=1800 fn="Rrl::process_response,Writer::clear_rrs,Writer::set_tc"
 //   bound="as c26_limited_shape_plain with an OPT pseudo-RR reserved in the response"
 //   kani="--no-assertion-reach-checks" stubs="S2,S4" sym="slip:usize, rcode, nanos, clock"
 #[kani::proof]
@@ -721,7 +753,7 @@ fn c26_limited_shape_opt() {
     c26_limited_response_shape(true, false);
 }
 
-// @harness props=C26 tier=thorough mem=4 t=900 fn="Rrl::process_response,Writer::clear_rrs,Writer::set_tc"
+// @harness props=C26 tier=thorough mem=4 t=1800 fn="Rrl::process_response,Writer::clear_rrs,Writer::set_tc"
 //   bound="as c26_limited_shape_plain with a TSIG pseudo-RR reserved in the response"
 //   kani="--no-assertion-reach-checks" stubs="S2,S4" sym="slip:usize, rcode, nanos, clock"
 #[kani::proof]
@@ -737,7 +769,7 @@ fn c26_limited_shape_tsig() {
 // capacities rate x window fit the 32-bit counters
 // --------------------------------------------------------------------------
 
-// @harness props=C26 tier=quick mem=3 t=900 fn="RrlParams::new"
+// @harness props=C26 tier=quick mem=2 t=900 fn="RrlParams::new"
 //   bound="all u32 rates and windows (full 2^128 input space)"
 //   sym="noerror_rate, nxdomain_rate, error_rate, window: u32"
 #[kani::proof]
@@ -788,22 +820,12 @@ struct RefSource {
 fn ref_source(is_v6: bool, o: &[u8; 16]) -> RefSource {
     if !is_v6 {
         // the IPv4 address is taken from the first four octets
-        RefSource { v4: true, bits: be(&o[0..4]) }
+        RefSource { v4: true, bits: u32::from_be_bytes([o[0], o[1], o[2], o[3]]) as u64 }
     } else if ref_mapped(o) {
-        RefSource { v4: true, bits: be(&o[12..16]) }
+        RefSource { v4: true, bits: u32::from_be_bytes([o[12], o[13], o[14], o[15]]) as u64 }
     } else {
-        RefSource { v4: false, bits: be(&o[0..8]) }
+        RefSource { v4: false, bits: u64::from_be_bytes([o[0], o[1], o[2], o[3], o[4], o[5], o[6], o[7]]) }
     }
-}
-
-fn be(o: &[u8]) -> u64 {
-    let mut x = 0u64;
-    let mut i = 0;
-    while i < o.len() {
-        x = (x << 8) | o[i] as u64;
-        i += 1;
-    }
-    x
 }
 
 /// The leading `len` bits of a `width`-bit value (the configured prefix).
@@ -901,18 +923,11 @@ impl Side {
     }
 }
 
-fn lower_eq(a: &[u8], b: &[u8]) -> bool {
-    if a.len() != b.len() {
-        return false;
-    }
-    let mut i = 0;
-    while i < a.len() {
-        if crate::kani_common::lower(a[i]) != crate::kani_common::lower(b[i]) {
-            return false;
-        }
-        i += 1;
-    }
-    true
+/// Case-insensitive equality of two names of the shape the pair harnesses
+/// use (two one-octet labels): same label lengths, same octets up to ASCII case.
+fn lower_eq(a: &[u8; 5], b: &[u8; 5]) -> bool {
+    use crate::kani_common::lower;
+    a[0] == b[0] && lower(a[1]) == lower(b[1]) && a[2] == b[2] && lower(a[3]) == lower(b[3]) && a[4] == b[4]
 }
 
 /// Two responses, the second less than a second after the first, through a
@@ -996,7 +1011,10 @@ fn c27_pair(qname1: [u8; 5], sos1: Option<[u8; 5]>, qname2: [u8; 5], sos2: Optio
     }
 
     let limited = o2 == Outcome::Dropped || o2 == Outcome::Slipped;
-    kani::cover!(limited && ca == 0, "NOERROR pair limited");
+    kani::cover!(
+        !a.exempt() && !b.exempt() && same_prefix && ca == 0 && cb == 0 && (if same_name { limited } else { o2 == Outcome::Sent }),
+        "NOERROR pair in one prefix: limited if the names are the same, sent if they differ"
+    );
     kani::cover!(limited && ca == 1, "NXDOMAIN pair limited");
     kani::cover!(limited && ca == 2 && a.rcode != b.rcode, "two different error RCODEs limited as one stream");
     kani::cover!(limited && a.is_v6 != b.is_v6, "IPv4 and IPv4-mapped IPv6 source limited as one stream");
@@ -1004,7 +1022,6 @@ fn c27_pair(qname1: [u8; 5], sos1: Option<[u8; 5]>, qname2: [u8; 5], sos2: Optio
     kani::cover!(limited && sa.v4 && sa.bits != sb.bits && v4_len > 0, "two IPv4 sources in one prefix limited");
     kani::cover!(o2 == Outcome::Sent && !a.exempt() && same_prefix && ca != cb, "same prefix, different category: sent");
     kani::cover!(o2 == Outcome::Sent && !a.exempt() && !same_prefix && ca == cb && sa.v4 == sb.v4, "same family and category, different prefix: sent");
-    kani::cover!(o2 == Outcome::Sent && !a.exempt() && same_prefix && ca == 0 && cb == 0, "same prefix, NOERROR, different names: sent");
     kani::cover!(o2 == Outcome::Sent && !a.exempt() && sa.v4 != sb.v4 && ca == cb, "different address family: sent");
     kani::cover!(o2 == Outcome::Exempt && b.tcp && !a.exempt() && same_stream, "TCP response of a limited stream: exempt");
     kani::cover!(o2 == Outcome::Exempt && !b.tcp && b.send && !a.exempt() && same_stream, "non-QUERY response of a limited stream: exempt");
@@ -1023,77 +1040,77 @@ const N_XB: [u8; 5] = [1, b'x', 1, b'b', 0];
 const N_STAR_A: [u8; 5] = [1, b'*', 1, b'a', 0];
 const N_STAR_A_UPPER: [u8; 5] = [1, b'*', 1, b'A', 0];
 
-// @harness props=C27 tier=quick mem=8 t=2400 fn="Rrl::process_response,Rrl::ip_to_dest_u64,server::rrl::subject_to_rrl,<Category as From<ExtendedRcode>>::from,<Key as PartialEq>::eq,ReceivedInfo::new,RrlParams::set_ipv4_prefix_len,RrlParams::set_ipv6_prefix_len,<Name as Hash>::hash"
-//   bound="two responses < 1 s apart, fresh table of size 1, rates 1 window 1; QNAMEs x.a. / x.a. (identical), no wildcard; per response: any IPv4 or any IPv6 source (all 2^32 / 2^128, incl. IPv4-mapped), UDP or TCP, any opcode and header flags, any RCODE 0..=15 or with OPT any extended RCODE 0..=4095, send_response already false or not; any prefix lengths 0..=32 / 0..=64, any slip; unwind 12"
-//   kani="--no-assertion-reach-checks" stubs="S2,S4" sym="2 x (family, 16 octets, transport, flags, id, edns, rcode, send), v4_len, v6_len, slip, gap nanos, clock"
+// @harness props=C27 tier=quick mem=5 t=2400 fn="Rrl::process_response,Rrl::ip_to_dest_u64,server::rrl::subject_to_rrl,<Category as From<ExtendedRcode>>::from,<Key as PartialEq>::eq,ReceivedInfo::new,RrlParams::set_ipv4_prefix_len,RrlParams::set_ipv6_prefix_len,<Name as Hash>::hash"
+//   bound="two responses < 1 s apart, fresh table of size 1, rates 1 window 1; QNAMEs x.a. / x.a. (identical), no wildcard; per response: any IPv4 or any IPv6 source (all 2^32 / 2^128, incl. IPv4-mapped), UDP or TCP, any opcode and header flags, any RCODE 0..=15 or with OPT any extended RCODE 0..=4095, send_response already false or not; any prefix lengths 0..=32 / 0..=64, any slip; unwind 5 (11 for the 10-octet scan in ReceivedInfo::new)"
+//   kani="--no-assertion-reach-checks" cbmc="--unwindset _RINvXs2J_NtNtCs8xvirJzNMvV_4core5slice4iterINtB7_4IterhENtNtNtNtBb_4iter6traits8iterator8Iterator3allNCNvMs0_NtCskjFBwtpsoHr_8quandary6serverNtB1J_12ReceivedInfo3new0EB1L_.0:11" stubs="S2,S4" sym="2 x (family, 16 octets, transport, flags, id, edns, rcode, send), v4_len, v6_len, slip, gap nanos, clock"
 #[kani::proof]
-#[kani::unwind(12)]
+#[kani::unwind(5)]
 #[kani::stub(std::time::Instant::now, clock_now)]
 #[kani::stub(Rrl::should_slip, should_slip_model)]
 fn c27_pair_same_qname() {
     c27_pair(N_XA, None, N_XA, None);
 }
 
-// @harness props=C27 tier=quick mem=8 t=2400 fn="Rrl::process_response,<Name as Hash>::hash,<Label as Hash>::hash"
+// @harness props=C27 tier=quick mem=5 t=2400 fn="Rrl::process_response,<Name as Hash>::hash,<Label as Hash>::hash"
 //   bound="as c27_pair_same_qname with QNAMEs x.a. / X.A. (same name, different case)"
-//   kani="--no-assertion-reach-checks" stubs="S2,S4" sym="as c27_pair_same_qname"
+//   kani="--no-assertion-reach-checks" cbmc="--unwindset _RINvXs2J_NtNtCs8xvirJzNMvV_4core5slice4iterINtB7_4IterhENtNtNtNtBb_4iter6traits8iterator8Iterator3allNCNvMs0_NtCskjFBwtpsoHr_8quandary6serverNtB1J_12ReceivedInfo3new0EB1L_.0:11" stubs="S2,S4" sym="as c27_pair_same_qname"
 #[kani::proof]
-#[kani::unwind(12)]
+#[kani::unwind(5)]
 #[kani::stub(std::time::Instant::now, clock_now)]
 #[kani::stub(Rrl::should_slip, should_slip_model)]
 fn c27_pair_case_variant_qname() {
     c27_pair(N_XA, None, N_XA_UPPER, None);
 }
 
-// @harness props=C27 tier=quick mem=8 t=2400 fn="Rrl::process_response,<Name as Hash>::hash"
+// @harness props=C27 tier=quick mem=5 t=2400 fn="Rrl::process_response,<Name as Hash>::hash"
 //   bound="as c27_pair_same_qname with QNAMEs x.a. / y.a. (different first label)"
-//   kani="--no-assertion-reach-checks" stubs="S2,S4" sym="as c27_pair_same_qname"
+//   kani="--no-assertion-reach-checks" cbmc="--unwindset _RINvXs2J_NtNtCs8xvirJzNMvV_4core5slice4iterINtB7_4IterhENtNtNtNtBb_4iter6traits8iterator8Iterator3allNCNvMs0_NtCskjFBwtpsoHr_8quandary6serverNtB1J_12ReceivedInfo3new0EB1L_.0:11" stubs="S2,S4" sym="as c27_pair_same_qname"
 #[kani::proof]
-#[kani::unwind(12)]
+#[kani::unwind(5)]
 #[kani::stub(std::time::Instant::now, clock_now)]
 #[kani::stub(Rrl::should_slip, should_slip_model)]
 fn c27_pair_different_qname() {
     c27_pair(N_XA, None, N_YA, None);
 }
 
-// @harness props=C27 tier=thorough mem=8 t=2400 fn="Rrl::process_response,<Name as Hash>::hash"
+// @harness props=C27 tier=thorough mem=5 t=2400 fn="Rrl::process_response,<Name as Hash>::hash"
 //   bound="as c27_pair_same_qname with QNAMEs x.a. / x.b. (different last label)"
-//   kani="--no-assertion-reach-checks" stubs="S2,S4" sym="as c27_pair_same_qname"
+//   kani="--no-assertion-reach-checks" cbmc="--unwindset _RINvXs2J_NtNtCs8xvirJzNMvV_4core5slice4iterINtB7_4IterhENtNtNtNtBb_4iter6traits8iterator8Iterator3allNCNvMs0_NtCskjFBwtpsoHr_8quandary6serverNtB1J_12ReceivedInfo3new0EB1L_.0:11" stubs="S2,S4" sym="as c27_pair_same_qname"
 #[kani::proof]
-#[kani::unwind(12)]
+#[kani::unwind(5)]
 #[kani::stub(std::time::Instant::now, clock_now)]
 #[kani::stub(Rrl::should_slip, should_slip_model)]
 fn c27_pair_different_parent_qname() {
     c27_pair(N_XA, None, N_XB, None);
 }
 
-// @harness props=C27 tier=quick mem=8 t=2400 fn="Rrl::process_response,<Name as Hash>::hash"
+// @harness props=C27 tier=quick mem=5 t=2400 fn="Rrl::process_response,<Name as Hash>::hash"
 //   bound="as c27_pair_same_qname with QNAMEs x.a. / y.a., both answered from the wildcard *.a. (second source of synthesis spelled *.A.)"
-//   kani="--no-assertion-reach-checks" stubs="S2,S4" sym="as c27_pair_same_qname"
+//   kani="--no-assertion-reach-checks" cbmc="--unwindset _RINvXs2J_NtNtCs8xvirJzNMvV_4core5slice4iterINtB7_4IterhENtNtNtNtBb_4iter6traits8iterator8Iterator3allNCNvMs0_NtCskjFBwtpsoHr_8quandary6serverNtB1J_12ReceivedInfo3new0EB1L_.0:11" stubs="S2,S4" sym="as c27_pair_same_qname"
 #[kani::proof]
-#[kani::unwind(12)]
+#[kani::unwind(5)]
 #[kani::stub(std::time::Instant::now, clock_now)]
 #[kani::stub(Rrl::should_slip, should_slip_model)]
 fn c27_pair_same_wildcard() {
     c27_pair(N_XA, Some(N_STAR_A), N_YA, Some(N_STAR_A_UPPER));
 }
 
-// @harness props=C27 tier=thorough mem=8 t=2400 fn="Rrl::process_response,<Name as Hash>::hash"
+// @harness props=C27 tier=thorough mem=5 t=2400 fn="Rrl::process_response,<Name as Hash>::hash"
 //   bound="as c27_pair_same_qname with QNAME x.a. twice, the first answered from the wildcard *.a., the second not synthesized"
-//   kani="--no-assertion-reach-checks" stubs="S2,S4" sym="as c27_pair_same_qname"
+//   kani="--no-assertion-reach-checks" cbmc="--unwindset _RINvXs2J_NtNtCs8xvirJzNMvV_4core5slice4iterINtB7_4IterhENtNtNtNtBb_4iter6traits8iterator8Iterator3allNCNvMs0_NtCskjFBwtpsoHr_8quandary6serverNtB1J_12ReceivedInfo3new0EB1L_.0:11" stubs="S2,S4" sym="as c27_pair_same_qname"
 #[kani::proof]
-#[kani::unwind(12)]
+#[kani::unwind(5)]
 #[kani::stub(std::time::Instant::now, clock_now)]
 #[kani::stub(Rrl::should_slip, should_slip_model)]
 fn c27_pair_wildcard_vs_plain() {
     c27_pair(N_XA, Some(N_STAR_A), N_XA, None);
 }
 
-// @harness props=C27 tier=thorough mem=8 t=2400 fn="Rrl::process_response,<Name as Hash>::hash"
+// @harness props=C27 tier=thorough mem=5 t=2400 fn="Rrl::process_response,<Name as Hash>::hash"
 //   bound="as c27_pair_same_qname with QNAME *.a. asked literally, then y.a. answered from the wildcard *.a."
-//   kani="--no-assertion-reach-checks" stubs="S2,S4" sym="as c27_pair_same_qname"
+//   kani="--no-assertion-reach-checks" cbmc="--unwindset _RINvXs2J_NtNtCs8xvirJzNMvV_4core5slice4iterINtB7_4IterhENtNtNtNtBb_4iter6traits8iterator8Iterator3allNCNvMs0_NtCskjFBwtpsoHr_8quandary6serverNtB1J_12ReceivedInfo3new0EB1L_.0:11" stubs="S2,S4" sym="as c27_pair_same_qname"
 #[kani::proof]
-#[kani::unwind(12)]
+#[kani::unwind(5)]
 #[kani::stub(std::time::Instant::now, clock_now)]
 #[kani::stub(Rrl::should_slip, should_slip_model)]
 fn c27_pair_literal_wildcard_qname() {
@@ -1104,7 +1121,7 @@ fn c27_pair_literal_wildcard_qname() {
 // C27: the address functions alone, over all addresses
 // --------------------------------------------------------------------------
 
-// @harness props=C27 tier=quick mem=3 t=900 fn="ReceivedInfo::new"
+// @harness props=C27 tier=quick mem=2 t=900 fn="ReceivedInfo::new"
 //   bound="every IPv4 and every IPv6 address (all 2^32 / 2^128), both transports; unwind 12"
 //   sym="family, octets:[u8;16], transport"
 #[kani::proof]
@@ -1143,7 +1160,7 @@ fn ref_mask(width: u32, len: u8) -> u64 {
     m
 }
 
-// @harness props=C27 tier=quick mem=3 t=900 fn="RrlParams::set_ipv4_prefix_len,RrlParams::set_ipv6_prefix_len,Rrl::ip_to_dest_u64"
+// @harness props=C27 tier=quick mem=2 t=900 fn="RrlParams::set_ipv4_prefix_len,RrlParams::set_ipv6_prefix_len,Rrl::ip_to_dest_u64"
 //   bound="every prefix length 0..=255 for both setters; every IPv4 address and every IPv6 address; unwind 66"
 //   sym="v4_len:u8, v6_len:u8, v4:u32, v6:u128"
 #[kani::proof]
